@@ -341,15 +341,18 @@ Print Assumptions initial_attribute_target_set_needed.
 
 (* ===================== the FAST engine (Fast.v, FastMicroStep::step) on the same charts ===================== *)
 
-(* WHAT: after initialisation and after every microstep of EVERY run of the model Fast.v of FastMicroStep::step the
-   configuration is legal (same statement as run_always_legal, with fast_step).
-   FOR WHICH CHARTS: wf_fastb = wf_histb (see run_always_legal_history) AND the default transition of every DEEP
-   history has exactly one target (whb_deep_default_single).  Every chart of wf_initb (no history), hence every
-   chart of wf_coreb, passes wf_fastb (wf_initb_fastb below).
-   The extra condition cannot be dropped: fast_deep_history_multi_target_default_refuted -- a DEFECT of
-   FastMicroStep.cpp (the loop over the default targets of a deep history adds the ancestors of the first
-   target only), the large engine is right on the same document.
-   NOT COVERED: histories below <parallel>, overlapping histories, the generated C. *)
+(* WHAT: after initialisation and after every microstep of EVERY run of the model Fast.v of FastMicroStep::step
+   (repaired code) the configuration is legal (same statement as run_always_legal, with fast_step).
+   FOR WHICH CHARTS: wf_fastb, which IS wf_histb (fast_reach_is_large_reach below): exactly the charts of
+   run_always_legal_history -- <initial> elements, deep / multiple initial attributes, shallow and deep
+   histories below compound states where histories with different parents record disjoint sets of proper
+   states; default transitions of deep histories may have SEVERAL targets.  Every chart of wf_initb, hence of
+   wf_coreb, is inside.
+   HISTORY OF THIS STATEMENT: for the pinned FastMicroStep.cpp it needed "the default transition of a deep history
+   has exactly one target": the loop over the default targets added the ancestors of the first target only
+   (a defect found by this proof, repaired; Fast.v models the repaired code, see
+   fast_deep_history_multi_target_default_repaired).
+   NOT COVERED: histories below <parallel>, overlapping histories (false, C02-K1), the generated C. *)
 Theorem run_always_legal_history_fast :
   forall c xv, wf_fastb c = true -> fs_type (st c 0) = FCompound ->
   forall fuel evs,
@@ -364,18 +367,24 @@ Theorem microstep_preserves_legal_history_fast :
 Proof. exact fast_step_legal_history. Qed.
 Print Assumptions microstep_preserves_legal_history_fast.
 
+(* WHAT: the reach of the fast-engine theorems is the reach of the large-engine theorems *)
+Theorem fast_reach_is_large_reach : forall c, wf_fastb c = wf_histb c.
+Proof. exact wf_fastb_histb. Qed.
+Print Assumptions fast_reach_is_large_reach.
+
 Theorem history_free_charts_are_covered_fast : forall c, wf_initb c = true -> wf_fastb c = true.
 Proof. exact wf_initb_fastb. Qed.
 Print Assumptions history_free_charts_are_covered_fast.
 
-(* WHAT: a valid document inside wf_histb (deep history whose default transition names two states in two regions of
-   a <parallel>, both two levels below their region) on which the fast engine reaches an illegal configuration
-   (s7 active without its parent s11) and the large engine a legal one.  Confirmed on the implementation. *)
-Theorem fast_deep_history_multi_target_default_refuted :
-  exists t evs fuel,
-    let c := flatten false t in
-    wf_histb c = true /\ fs_type (st c 0%nat) = FCompound /\ whb_deep_default_single c = false /\
-    legal_configb c (l_cfg (fst (run_loop c lstate (fast_step ex_fixed c) l_cfg fuel l_pristine x_init evs))) = false /\
-    legal_configb c (l_cfg (fst (run_loop c lstate (large_step lg_fixed ex_fixed c) l_cfg fuel l_pristine x_init evs))) = true.
-Proof. exact fast_deep_history_default_refuted. Qed.
-Print Assumptions fast_deep_history_multi_target_default_refuted.
+(* WHAT: the document on which the pinned fast engine reached an illegal configuration (deep history whose default
+   transition names two states in two regions of a <parallel>, both two levels below their region: s7 became
+   active without its parent s11).  With the repaired code the run of fast_step on event e ends in a legal
+   configuration, the same as the large engine's: scxml, s1, s2, s3, s10, s4, s6, s11, s7. *)
+Theorem fast_deep_history_multi_target_default_repaired :
+  let c := flatten false fd_tree in
+  let cf := l_cfg (fst (run_loop c lstate (fast_step ex_fixed c) l_cfg 20%nat l_pristine x_init [[101%N]])) in
+  let cl := l_cfg (fst (run_loop c lstate (large_step lg_fixed ex_fixed c) l_cfg 20%nat l_pristine x_init [[101%N]])) in
+  wf_fastb c = true /\ fs_type (st c 0%nat) = FCompound /\
+  legal_configb c cf = true /\ cf = cl /\ cf = [0; 1; 3; 4; 5; 6; 8; 10; 12]%nat.
+Proof. exact fast_deep_history_default_repaired. Qed.
+Print Assumptions fast_deep_history_multi_target_default_repaired.
